@@ -40,7 +40,7 @@ inductive GRes where
   deriving DecidableEq, Repr
 
 /-- `admit_packet`; note `_t_pg` is assigned before the division, so a ZeroDivisionError leaves it changed -/
-def admit (c : GCfg) (s : GState) (t ton : Rat) : GState × GRes :=
+def admitPkt (c : GCfg) (s : GState) (t ton : Rat) : GState × GRes :=
   if ton ≤ 0 then (s, .valueError)
   else if !isOpen c s t then (s, .rejected)
   else if s.delta = 0 then ({ s with tpg := some t }, .zeroDiv)
@@ -57,12 +57,12 @@ def updDelta (c : GCfg) (s : GState) (t dNew : Rat) : GState × GRes :=
     | _, _ => ({ s with delta := dNew }, .done)
 
 inductive GOp where
-  | admit (t ton : Rat)
+  | admitPkt (t ton : Rat)
   | upd (t dNew : Rat)
   | query (t : Rat)
 
 def gStep (c : GCfg) (s : GState) : GOp → GState
-  | .admit t ton => (admit c s t ton).1
+  | .admitPkt t ton => (admitPkt c s t ton).1
   | .upd t d => (updDelta c s t d).1
   | .query _ => s
 
@@ -71,9 +71,9 @@ def gRun (c : GCfg) (s : GState) (ops : List GOp) : GState := ops.foldl (gStep c
 /-- times of the admitted packets of a history, in order -/
 def admissions (c : GCfg) : GState → List GOp → List Rat
   | _, [] => []
-  | s, .admit t ton :: ops =>
-    if (admit c s t ton).2 = .admitted then t :: admissions c (admit c s t ton).1 ops
-    else admissions c (admit c s t ton).1 ops
+  | s, .admitPkt t ton :: ops =>
+    if (admitPkt c s t ton).2 = .admitted then t :: admissions c (admitPkt c s t ton).1 ops
+    else admissions c (admitPkt c s t ton).1 ops
   | s, op :: ops => admissions c (gStep c s op) ops
 
 end FlexModel.Dcc
